@@ -775,8 +775,32 @@ func (e *Engine) applyContractSig(st *State, fr *Frame, x *ssa.Call, name string
 		pos = x.Pos()
 	}
 	preHeaps := copyHeaps(st.heaps)
+	// ghost parameters of the callee: bound by the caller's `ghost-arg callee.name = expr`, otherwise
+	// the clauses that mention them are neither demanded nor assumed (they hold for every value of the
+	// ghost parameter that satisfies the ghost preconditions; the other clauses do not depend on it)
+	var unboundGhosts []string
+	if len(spec.Ghosts) > 0 {
+		root := st.frames[0]
+		for _, g := range spec.Ghosts {
+			var bound Expr
+			if root.spec != nil {
+				if ex, ok := root.spec.GhostArgs[shortName(name)+"."+g.Name]; ok {
+					bound = ex
+				}
+			}
+			if bound == nil {
+				unboundGhosts = append(unboundGhosts, g.Name)
+				continue
+			}
+			gc := &specCtx{e: e, st: st, env: e.entryEnv(root), heaps: st.heaps, oldHeaps: st.old, pkg: root.fn.Pkg, fr: fr}
+			env[g.Name] = gc.eval(bound)
+		}
+	}
 	pre := &specCtx{e: e, st: st, env: env, heaps: preHeaps, oldHeaps: preHeaps, pkg: e.pkgOfSpec(spec)}
 	for i, r := range spec.Requires {
+		if len(unboundGhosts) > 0 && mentions(r.E, unboundGhosts) {
+			continue
+		}
 		lbl := r.Label
 		if lbl == "" {
 			lbl = fmt.Sprintf("%s.%d", name, i)
@@ -960,6 +984,9 @@ func (e *Engine) applyContractSig(st *State, fr *Frame, x *ssa.Call, name string
 		}
 		if mentions(en.E, callLogBuiltins) {
 			continue // talks about the callee's own call log, which the caller cannot see
+		}
+		if len(unboundGhosts) > 0 && mentions(en.E, unboundGhosts) {
+			continue
 		}
 		if en.Except != nil {
 			// clause with a known finding: callers may rely on it only outside the recorded region
